@@ -361,6 +361,30 @@ plan_err += [
 ]
 fam('plan_errors', plan_err)
 
+# same identifier, different role in different catalogs: 'sales' is a project, a data integration, an api integration,
+# a schema under the default integration, the predictor namespace, or unknown
+ROLE_OPS = ["select * from sales.orders", "select * from sales.orders where a = 1", "select o.a from sales.orders o join int.tab1 t on o.id = t.id",
+            "select * from int.tab1 t join sales.orders o on o.id = t.id where o.x > 1", "select * from sales.pred where x = 1",
+            "select t.a, m.p from int.tab1 t join sales.pred m", "insert into sales.orders (a) values (1)", "delete from sales.orders where a = 1",
+            "select * from int.tab1 where a in (select b from sales.orders)", "select * from orders"]
+ROLE_CATS = [
+    {'integrations': ['int', {'name': 'sales', 'type': 'project'}], 'predictor_namespace': 'mindsdb', 'predictor_metadata': [{'name': 'pred', 'integration_name': 'sales'}], 'default_namespace': None},
+    {'integrations': ['int', 'sales'], 'predictor_namespace': 'mindsdb', 'predictor_metadata': [{'name': 'pred'}], 'default_namespace': None},
+    {'integrations': ['int', {'name': 'sales', 'type': 'data', 'class_type': 'api'}], 'predictor_namespace': 'mindsdb', 'predictor_metadata': [{'name': 'pred'}], 'default_namespace': None},
+    {'integrations': ['int'], 'predictor_namespace': 'mindsdb', 'predictor_metadata': [{'name': 'pred'}], 'default_namespace': 'int'},
+    {'integrations': ['int'], 'predictor_namespace': 'sales', 'predictor_metadata': [{'name': 'pred'}], 'default_namespace': 'int'},
+    {'integrations': ['int'], 'predictor_namespace': 'mindsdb', 'predictor_metadata': [{'name': 'pred'}], 'default_namespace': None},
+    {'integrations': ['int', {'name': 'Sales', 'type': 'project'}], 'predictor_namespace': 'mindsdb', 'predictor_metadata': [], 'default_namespace': 'sales'},
+]
+fam('name_roles', [P(sql_, cat_id(cat_)) for cat_ in ROLE_CATS for sql_ in ROLE_OPS])
+# same identifier as a CTE name in one query and as an ordinary table (default integration) in another
+cDEF = cat_id({'integrations': ['int', 'int2'], 'predictor_namespace': 'mindsdb', 'predictor_metadata': [{'name': 'pred'}], 'default_namespace': 'int'})
+fam('name_roles_cte', [P(q_, cDEF) for q_ in [
+    "with tab1 as (select * from int2.other where a = 1) select * from tab1", "select * from tab1", "select a, b from tab1 where a > 2 limit 3",
+    "with tab1 as (select 1 as a) select * from tab1 join int2.tab2 t2 on tab1.a = t2.a", "select * from tab1 t1 join int2.tab2 t2 on t1.a = t2.a",
+    "with x as (select * from int2.t where b = 2), tab2 as (select * from x) select * from tab2", "select * from tab2 where c = 1", "select * from x",
+    "select * from int.tab1 where a in (select a from x)", "with tab1 as (select * from tab2) select * from tab1 union select * from tab2"]])
+
 # ------------------------------------------------------------------ render ops
 rnd_by = collections.defaultdict(list)
 for rd, d, sql, fb in sorted(H['render']):
@@ -393,7 +417,16 @@ for rd in ('mysql', 'postgresql', 'sqlite', 'mssql', 'oracle'):
     for s in RENDER_EXTRA:
         for fb in (True, False):
             render_ops.append({'k': 'render', 'd': 'mindsdb', 'sql': s, 'rd': rd, 'fb': fb})
+RENDER_WP = ["insert into t (a, b) values (1, 'x'), (2, null)", "insert into a.t (a, b, c) values (1.0, true, 'q')", "insert into t (a) values (1)",
+             "insert into t (a, b) select a, b from t2", "select a from t where b = 1 and c = 1.0 and d = true", "select 0, 0.0, false, 1, 1.0, true from t",
+             "update t set a = 1.0 where b = 1", "delete from t where a = true or b = 1 or c = 1.0", "select a from t where b in (1, 1.0, 2, 2.0)"]
+for rd in ('mysql', 'postgresql', 'sqlite', 'mssql', 'oracle'):
+    for s_ in RENDER_WP:
+        render_ops.append({'k': 'render', 'd': 'mindsdb', 'sql': s_, 'rd': rd, 'fb': True, 'wp': True})
+        render_ops.append({'k': 'render', 'd': 'mindsdb', 'sql': s_, 'rd': rd, 'fb': False})
 fam('render_kinds', [o for o in render_ops if o['sql'] in RENDER_EXTRA and o['rd'] in ('mysql', 'postgresql')])
+for rd in ('mysql', 'postgresql', 'sqlite', 'mssql', 'oracle'):
+    fam('render_values_' + rd, [o for o in render_ops if o['sql'] in RENDER_WP and o['rd'] == rd])
 
 # ------------------------------------------------------------------ reserved-word family
 fam('reserved_words', [
